@@ -253,7 +253,13 @@ pub struct RunSummary {
     pub found: Vec<Found>,
     pub crashes: Vec<(String, u64, Option<String>, bool)>, // profile, run index, sig line, hang?
     pub digests: BTreeMap<(String, u64), String>,
+    /// check hash -> (profile, artefact digest, check) for cross-process comparison
+    pub artefacts: BTreeMap<String, (String, String, Value)>,
     pub truncated_by_deadline: bool,
+}
+
+fn a_profile(a: &ParentArgs, idx: usize) -> String {
+    a.bins[idx].0.clone()
 }
 
 /// Drive all workers to completion.
@@ -278,6 +284,7 @@ pub fn drive(a: &ParentArgs) -> RunSummary {
         found: Vec::new(),
         crashes: Vec::new(),
         digests: BTreeMap::new(),
+        artefacts: BTreeMap::new(),
         truncated_by_deadline: false,
     };
     let mut live = slots.len();
@@ -311,6 +318,30 @@ pub fn drive(a: &ParentArgs) -> RunSummary {
                     }
                     if let Some(d) = v.get("digest").and_then(|x| x.as_str()) {
                         sum.digests.insert((a.bins[s.profile].0.clone(), i), d.to_string());
+                    }
+                    if let Some(arr) = v.get("artefacts").and_then(|x| x.as_array()) {
+                        for art in arr {
+                            let (h, d, ck) = (art[0].as_str().unwrap_or("").to_string(), art[1].as_str().unwrap_or("").to_string(), art[2].clone());
+                            let profile = a_profile(a, s.profile);
+                            match sum.artefacts.get(&h) {
+                                None => {
+                                    sum.artefacts.insert(h, (profile, d, ck));
+                                }
+                                Some((p0, d0, _)) => {
+                                    *sum.stats.entry("artefacts_compared_across_processes".into()).or_insert(0) += 1;
+                                    if *d0 != d {
+                                        sum.found.push(Found {
+                                            profile: profile.clone(),
+                                            check: ck,
+                                            class: "artefact-differs-across-processes".into(),
+                                            at: 0,
+                                            detail: format!("printed IR/bytecode digest {} in a {} process but {} in a {} process", d, profile, d0, p0),
+                                            run_index: i,
+                                        });
+                                    }
+                                }
+                            }
+                        }
                     }
                     if let Some(smp) = v.get("sample") {
                         if !smp.is_null() && sum.samples.len() < 6 {
